@@ -94,7 +94,7 @@ pub mod vproc {
             ensures final(self).p == old(self).p,
                 match r {
                     Ok(c) => final(w).running && final(w).spawned == old(w).spawned.push(old(self).p@) && c.p == old(self).p
-                        && (c.stdin is Some <==> old(self).p@.stdin is Piped) && final(w).runs == old(w).runs,
+                        && (c.stdin is Some <==> old(self).p@.stdin is Piped) && final(w).runs == old(w).runs && final(w).bad_exits == old(w).bad_exits,
                     Err(_) => *final(w) == *old(w),
                 }
         { unimplemented!() }
@@ -103,7 +103,9 @@ pub mod vproc {
         #[verifier::external_body]
         pub fn status(&mut self, Tracked(w): Tracked<&mut World>) -> (r: Result<ExitStatus, crate::acme_common::error::IoError>)
             ensures !final(w).running, final(w).spawned == old(w).spawned, final(w).runs == old(w).runs,
-                final(self).p == old(self).p, r matches Ok(st) ==> final(w).last_exit_ok == st.ok@
+                final(self).p == old(self).p, r matches Ok(st) ==> final(w).last_exit_ok == st.ok@,
+                // a child that did not end with exit code 0 is on record, whatever its caller makes of it
+                final(w).bad_exits == old(w).bad_exits + (if r matches Ok(st) && st.ok@ { 0nat } else { 1nat })
         { unimplemented!() }
     }
     }
